@@ -6,6 +6,7 @@ import numpy as np
 import common as C
 import gen as G
 import verde as vd
+from props import large as L
 from verde.base import least_squares
 
 ID = "C02"
@@ -70,6 +71,12 @@ def pts(rng, n, scale=8.0):
 
 
 def corpus():
+    return _corpus() + [L.case("compiled_loops", [1], "corpus-compiled-loops"),
+                       L.case("compiled_loops", [2], "corpus-compiled-loops"),
+                       L.case("jacobian_in_pieces", [70001, 121, 1], "corpus-long-table")]
+
+
+def _corpus():
     import random
     rng = random.Random(2)
     cs = [mk_ls([[1.0, 0.0], [1.0, 1.0], [1.0, 2.0], [1.0, 3.0]], [1.0, 3.0, 5.0, 8.0], None, None, "corpus"),
@@ -290,6 +297,9 @@ def _fit(case):
 
 
 def impl(case):
+    if case["fn"] == "large":
+        r = C.call(L.run, case["args"])
+        return r if C.is_err(r) else ["large", r]
     r = C.call(_fit, case)
     return r if C.is_err(r) else ["fit", r]
 
@@ -321,6 +331,8 @@ def _sig(w, d):
 
 
 def compare(case, io, mo):
+    if case["fn"] == "large":
+        return "diff:implementation failed: " + io[1] if C.is_err(io) else "ok"
     if case.get("jacobian_error") or case.get("oracle_only"):
         return "ok"
     if C.is_err(io):
@@ -359,6 +371,8 @@ def compare(case, io, mo):
 
 
 def oracle(case, io):
+    if case["fn"] == "large":
+        return (io[1] or None) if not C.is_err(io) else "failed: " + io[1]
     if case.get("jacobian_error"):
         return f"the public jacobian method failed ({case['jacobian_error']}) for {len(case['args'][0])} data points and " \
                f"{'forces at the data' if case['args'][5] is None else str(len(case['args'][5][0])) + ' separate forces'}"
@@ -434,6 +448,8 @@ def oracle(case, io):
 
 
 def nontrivial(case, io):
+    if case["fn"] == "large":
+        return not C.is_err(io)
     return (not C.is_err(io)) and len(io[1]["params"]) >= 2
 
 
